@@ -182,6 +182,7 @@ _GRADIENT_INFO = {
 
 def _color_stop(stop_el, shape_opacity=1.0) -> ColorStop:
     offset = number_or_percentage(stop_el.attrib.get("offset", "0"))
+    offset = min(max(offset, 0.0), 1.0)  # SVG clamps stop offsets to [0, 1]
     color = Color.fromstring(stop_el.attrib.get("stop-color", "black"))
     opacity = number_or_percentage(stop_el.attrib.get("stop-opacity", "1"))
     color = color._replace(alpha=color.alpha * opacity * shape_opacity)
@@ -193,9 +194,17 @@ def _common_gradient_parts(el, shape_opacity=1.0):
     if spread_method not in Extend.__members__:
         raise ValueError(f"Unknown spreadMethod {spread_method}")
 
+    stops = []
+    for stop_el in el:
+        stop = _color_stop(stop_el, shape_opacity)
+        # SVG: an offset smaller than that of the stop before it is raised to it
+        if stops and stop.stopOffset < stops[-1].stopOffset:
+            stop = dataclasses.replace(stop, stopOffset=stops[-1].stopOffset)
+        stops.append(stop)
+
     return {
         "extend": Extend.__members__[spread_method],
-        "stops": tuple(_color_stop(stop, shape_opacity) for stop in el),
+        "stops": tuple(stops),
     }
 
 
